@@ -151,6 +151,8 @@ type c11List struct {
 	units []string // field units (already in s-expression form), with encodings in unitEnc
 	uenc  [][]byte
 	tgt   int // add: target local or -1
+	name2 c11Name // ifield: data register; bfield: bank register
+	val   c11Int  // bfield: bank value
 }
 
 func c11Kids(ks []c11Node) (string, []byte) {
@@ -193,6 +195,10 @@ func (l *c11List) sx() string {
 		return fmt.Sprintf("( region %s %d%s )", l.name.sx(), l.ints[0], ks)
 	case "field":
 		return fmt.Sprintf("( field %d %s %d %s )", l.w, l.name.sx(), l.ints[0], strings.Join(l.units, " "))
+	case "ifield":
+		return fmt.Sprintf("( ifield %d %s %s %d %s )", l.w, l.name.sx(), l.name2.sx(), l.ints[0], strings.Join(l.units, " "))
+	case "bfield":
+		return fmt.Sprintf("( bfield %d %s %s %s %d %s )", l.w, l.name.sx(), l.name2.sx(), l.val.sx(), l.ints[0], strings.Join(l.units, " "))
 	case "mutex":
 		return fmt.Sprintf("( mutex %s %d )", l.name.sx(), l.ints[0])
 	case "event":
@@ -219,6 +225,16 @@ func (l *c11List) body() []byte {
 		return append(append(l.name.enc(), byte(l.ints[0])), kb...)
 	case "field":
 		b := append(l.name.enc(), byte(l.ints[0]))
+		for _, u := range l.uenc {
+			b = append(b, u...)
+		}
+		return b
+	case "ifield", "bfield":
+		b := append(l.name.enc(), l.name2.enc()...)
+		if l.kind == "bfield" {
+			b = append(b, l.val.enc()...)
+		}
+		b = append(b, byte(l.ints[0]))
 		for _, u := range l.uenc {
 			b = append(b, u...)
 		}
@@ -269,6 +285,10 @@ func (l *c11List) enc() []byte {
 		return append(append(append([]byte{0x5b, 0x80}, l.name.enc()...), byte(l.ints[0])), kb...)
 	case "field":
 		return c11Pkg([]byte{0x5b, 0x81}, l.w, l.body())
+	case "ifield":
+		return c11Pkg([]byte{0x5b, 0x86}, l.w, l.body())
+	case "bfield":
+		return c11Pkg([]byte{0x5b, 0x87}, l.w, l.body())
 	case "mutex":
 		return append(append([]byte{0x5b, 0x01}, l.name.enc()...), byte(l.ints[0]))
 	case "event":
@@ -305,6 +325,7 @@ type c11Gen struct {
 	scopes  [][]string        // scopes that can be re-opened / named into (absolute paths); [] = root
 	methods []*c11Method
 	feature map[string]bool
+	units   map[string][]string // field units declared per scope
 	clean   bool // avoid every construct with a recorded known finding (most cases), so that they pass the whole oracle
 	inWhile bool
 }
@@ -486,41 +507,22 @@ func (g *c11Gen) objs(scope []string, depth, n int) []c11Node {
 			out = append(out, &c11List{kind: "region", name: nm, ints: []uint64{uint64(r.intn(5))}, kids: []c11Node{g.integer(), g.integer()}})
 			if c11Key(tgt) == c11Key(scope) {
 				f := &c11List{kind: "field", name: c11Name{segs: []string{seg}}, ints: []uint64{uint64(r.intn(128))}}
-				for u := r.intn(5); u > 0; u-- {
-					switch r.intn(6) {
-					case 0:
-						bits := r.intn(300)
-						w := 1
-						if bits > 0x3f {
-							w = 2
-						}
-						if r.chance(20) {
-							w = 2 + r.intn(3)
-						}
-						f.units = append(f.units, fmt.Sprintf("r%d:%d", w, bits))
-						f.uenc = append(f.uenc, append([]byte{0}, c12EncPkgLen(uint32(bits), w)...))
-					case 1:
-						ty, at := r.intn(6), r.intn(16)
-						f.units = append(f.units, fmt.Sprintf("a%d:%d", ty, at))
-						f.uenc = append(f.uenc, []byte{1, byte(ty), byte(at)})
-					default:
-						useg := g.fresh('F', scope)
-						g.declare(scope, useg, "field")
-						bits := r.intn(64)
-						w := 1
-						if r.chance(30) {
-							bits = r.intn(5000)
-							w = 2 + r.intn(3)
-							if bits > 0xfff && w < 3 {
-								w = 3
-							}
-						}
-						f.units = append(f.units, fmt.Sprintf("u%s:%d:%d", useg, w, bits))
-						f.uenc = append(f.uenc, append([]byte(useg), c12EncPkgLen(uint32(bits), w)...))
-					}
-				}
-				f.w = c11Width(r, len(f.body()))
+				g.fieldUnits(f, scope, r.intn(5))
 				out = append(out, f)
+				// IndexField / BankField over units declared in this scope
+				us := g.units[c11Key(scope)]
+				if len(us) >= 2 && r.chance(40) {
+					f2 := &c11List{kind: "ifield", name: c11Name{segs: []string{us[r.intn(len(us))]}}, name2: c11Name{segs: []string{us[r.intn(len(us))]}}, ints: []uint64{uint64(r.intn(128))}}
+					g.fieldUnits(f2, scope, 1+r.intn(3))
+					g.feature["indexfield"] = true
+					out = append(out, f2)
+				}
+				if len(us) >= 1 && r.chance(40) {
+					f3 := &c11List{kind: "bfield", name: c11Name{segs: []string{seg}}, name2: c11Name{segs: []string{us[r.intn(len(us))]}}, val: g.integer(), ints: []uint64{uint64(r.intn(128))}}
+					g.fieldUnits(f3, scope, 1+r.intn(3))
+					g.feature["bankfield-deferred"] = true
+					out = append(out, f3)
+				}
 			}
 		case k < 15: // Mutex / Event
 			nm, tgt, seg := g.declName(scope, 'X')
@@ -614,6 +616,46 @@ func c11NoObjects(ss []c11Node) bool {
 	return true
 }
 
+// fieldUnits fills a Field/IndexField/BankField with n field-list elements declared in `scope`
+func (g *c11Gen) fieldUnits(f *c11List, scope []string, n int) {
+	r := g.r
+	for u := n; u > 0; u-- {
+		switch r.intn(6) {
+		case 0:
+			bits := r.intn(300)
+			w := 1
+			if bits > 0x3f {
+				w = 2
+			}
+			if r.chance(20) {
+				w = 2 + r.intn(3)
+			}
+			f.units = append(f.units, fmt.Sprintf("r%d:%d", w, bits))
+			f.uenc = append(f.uenc, append([]byte{0}, c12EncPkgLen(uint32(bits), w)...))
+		case 1:
+			ty, at := r.intn(6), r.intn(16)
+			f.units = append(f.units, fmt.Sprintf("a%d:%d", ty, at))
+			f.uenc = append(f.uenc, []byte{1, byte(ty), byte(at)})
+		default:
+			useg := g.fresh('F', scope)
+			g.declare(scope, useg, "field")
+			g.units[c11Key(scope)] = append(g.units[c11Key(scope)], useg)
+			bits := r.intn(64)
+			w := 1
+			if r.chance(30) {
+				bits = r.intn(5000)
+				w = 2 + r.intn(3)
+				if bits > 0xfff && w < 3 {
+					w = 3
+				}
+			}
+			f.units = append(f.units, fmt.Sprintf("u%s:%d:%d", useg, w, bits))
+			f.uenc = append(f.uenc, append([]byte(useg), c12EncPkgLen(uint32(bits), w)...))
+		}
+	}
+	f.w = c11Width(r, len(f.body()))
+}
+
 // visible: is `tgt` found by the single-segment upward search started in `scope`?
 func (g *c11Gen) visible(scope, tgt []string) bool {
 	seg := tgt[len(tgt)-1]
@@ -665,11 +707,7 @@ func (g *c11Gen) termX(scope []string, depth int, asArg bool) c11Node {
 	case 4:
 		if depth > 0 && !(g.clean && asArg) {
 			l := &c11List{kind: "add", tgt: r.intn(3) - 1}
-			d := depth - 1
-			if g.clean && g.inWhile {
-				d = 0 // no calls among the operands
-			}
-			l.kids = []c11Node{g.term(scope, d), g.term(scope, d)}
+			l.kids = []c11Node{g.term(scope, depth-1), g.term(scope, depth-1)}
 			return l
 		}
 	}
@@ -733,7 +771,7 @@ func c11Fix(r *vrng, ns []c11Node) {
 		if l, ok := n.(*c11List); ok {
 			c11Fix(r, l.kids)
 			switch l.kind {
-			case "p", "if", "while", "scope", "device", "thermal", "method", "field", "proc", "power":
+			case "p", "if", "while", "scope", "device", "thermal", "method", "field", "ifield", "bfield", "proc", "power":
 				if min := c11Width(nil, len(l.body())); l.w < min {
 					l.w = min
 				}
@@ -774,7 +812,7 @@ func (g *c11Gen) table(first bool) []c11Node {
 }
 
 func c11NewGen(r *vrng) *c11Gen {
-	g := &c11Gen{r: r, decl: map[string]string{}, feature: map[string]bool{}}
+	g := &c11Gen{r: r, decl: map[string]string{}, feature: map[string]bool{}, units: map[string][]string{}}
 	g.scopes = append(g.scopes, nil)
 	for _, s := range []string{"_GPE", "_PR_", "_SB_", "_SI_", "_TZ_"} {
 		g.decl[s] = "scope"
@@ -822,6 +860,45 @@ func TestVerifC11(t *testing.T) {
 		return &c11List{kind: "call", name: N(false, 0, nm), kids: args}
 	}
 	i1 := func(v uint64) c11Node { return c11Int{1, v} }
+	// field-list containers: units are "NAME:bits" (named) or ":bits" (reserved)
+	flist := func(kind string, n1, n2 c11Name, val c11Int, flags uint64, units ...string) c11Node {
+		l := &c11List{kind: kind, name: n1, name2: n2, val: val, ints: []uint64{flags}}
+		for _, u := range units {
+			var nm string
+			var bits int
+			fmt.Sscanf(u[strings.Index(u, ":")+1:], "%d", &bits)
+			nm = u[:strings.Index(u, ":")]
+			w := 1
+			if bits > 0x3f {
+				w = 2
+			}
+			if nm == "" {
+				l.units = append(l.units, fmt.Sprintf("r%d:%d", w, bits))
+				l.uenc = append(l.uenc, append([]byte{0}, c12EncPkgLen(uint32(bits), w)...))
+			} else {
+				l.units = append(l.units, fmt.Sprintf("u%s:%d:%d", nm, w, bits))
+				l.uenc = append(l.uenc, append([]byte(nm), c12EncPkgLen(uint32(bits), w)...))
+			}
+		}
+		l.w = c11Width(nil, len(l.body()))
+		return l
+	}
+	region := func(nm string, space uint64, off, ln c11Node) c11Node {
+		return &c11List{kind: "region", name: N(false, 0, nm), ints: []uint64{space}, kids: []c11Node{off, ln}}
+	}
+	leafL := func(k string, nm c11Name, ints ...uint64) *c11List { return &c11List{kind: k, name: nm, ints: ints} }
+	three := func(p string) []c11Node { // three plain siblings
+		return []c11Node{name(N(false, 0, p+"0"), i1(1)), name(N(false, 0, p+"1"), c11Str{[]byte("x")}), name(N(false, 0, p+"2"), i1(3))}
+	}
+	cat := func(parts ...[]c11Node) []c11Node {
+		var out []c11Node
+		for _, p := range parts {
+			out = append(out, p...)
+		}
+		return out
+	}
+	one := func(n c11Node) []c11Node { return []c11Node{n} }
+	noName := c11Name{}
 
 	var cases []c11Case
 	// deterministic boundary list
@@ -852,6 +929,50 @@ func TestVerifC11(t *testing.T) {
 			&c11List{kind: "while", w: 1, kids: []c11Node{i1(1), &c11List{kind: "while", w: 1, kids: []c11Node{i1(2), c11Leaf{"noop", []byte{0xa3}}}}, call("M001", i1(3))}})}),
 		c11Hand("b-while-call-in-expression", "while-deferred,deferred-call-in-expression,call", []c11Node{method(N(false, 0, "M001"), 0), method(N(false, 0, "M000"), 0,
 			&c11List{kind: "while", w: 1, kids: []c11Node{i1(1), &c11List{kind: "store", ints: []uint64{0}, kids: []c11Node{&c11List{kind: "add", tgt: -1, kids: []c11Node{i1(1), call("M001")}}}}}})}),
+		// resolve-pass chains (seeded change A): every statement refers only to objects declared earlier,
+		// yet DEVC is parked in \_GPE until pass 2 and Scope(DEVC) resolves in pass 3
+		c11Hand("b-three-resolve-passes", "scope-absolute,name-absolute,resolve-passes-3", []c11Node{
+			cont("device", N(true, 0, "_SB_", "DEVA"), name(N(false, 0, "_ADR"), i1(1))),
+			cont("scope", N(true, 0, "_GPE"), cont("device", N(true, 0, "_SB_", "DEVA", "DEVC"), name(N(false, 0, "_ADR"), i1(2)))),
+			cont("scope", N(true, 0, "_SB_", "DEVA"), cont("scope", N(false, 0, "DEVC"), name(N(false, 0, "XXXX"), i1(3)))),
+			name(N(false, 0, "TAIL"), i1(4))}),
+		c11Hand("b-three-resolve-passes-2", "scope-absolute,name-absolute,name-relative-multi,resolve-passes-3", []c11Node{
+			cont("device", N(true, 0, "_SB_", "DEVA")),
+			cont("scope", N(true, 0, "_GPE"), cont("device", N(true, 0, "_SB_", "DEVA", "DEVC"), cont("device", N(false, 0, "DEVD")))),
+			cont("scope", N(true, 0, "_PR_"), cont("thermal", N(true, 0, "_SB_", "DEVA", "TZN0"))),
+			cont("scope", N(true, 0, "_SB_", "DEVA"), cont("scope", N(false, 0, "DEVC"), cont("device", N(false, 0, "DEVD", "DEVY")),
+				cont("scope", N(false, 0, "DEVD"), name(N(false, 0, "N000"), i1(5)))), cont("scope", N(false, 0, "TZN0"), name(N(false, 0, "N001"), i1(6)))),
+			name(N(false, 0, "TAIL"), i1(4))}),
+		// multi-table (seeded change B): a BankField of table 1 followed by its units and >= 3 siblings, then table 2
+		c11Hand("b-bankfield-two-tables", "later-table-scope,bankfield-deferred", cat(
+			one(region("GIO0", 1, c11Int{2, 0x125}, c11Int{2, 0x100})),
+			one(flist("field", N(false, 0, "GIO0"), noName, c11Int{}, 1, "GLB1:1", "GLB2:1", ":6", "BNK1:4")),
+			one(flist("bfield", N(false, 0, "GIO0"), N(false, 0, "BNK1"), c11Int{0, 0}, 1, ":384", "FET0:1", "FET1:3")),
+			one(name(N(false, 0, "AFTR"), i1(0x42))), one(cont("device", N(false, 0, "DEVA"), name(N(false, 0, "_ADR"), i1(7)))), three("NX0")),
+			[]c11Node{name(N(false, 0, "LATE"), i1(9))}),
+		// every named-object kind in table 1, each followed by >= 3 siblings; table 1 has a Buffer, a While and a
+		// BankField (deferred blocks); table 2 and 3 use forward method references and methods of table 1
+		c11Hand("b-all-kinds-three-tables", "later-table-scope,bankfield-deferred,indexfield,while-deferred,call", cat(
+			one(region("REG0", 0, c11Int{2, 0x1000}, c11Int{1, 0x40})), three("NA0"),
+			one(flist("field", N(false, 0, "REG0"), noName, c11Int{}, 0x21, "FLD0:8", "FLD1:8", ":16", "FLD2:4")), three("NB0"),
+			one(flist("ifield", N(false, 0, "FLD0"), N(false, 0, "FLD1"), c11Int{}, 1, "IDX0:8", "IDX1:8")), three("NC0"),
+			one(flist("bfield", N(false, 0, "REG0"), N(false, 0, "FLD2"), c11Int{1, 3}, 2, "BFL0:4", ":4", "BFL1:8")), three("ND0"),
+			one(method(N(false, 0, "MTH0"), 2, &c11List{kind: "while", w: 1, kids: []c11Node{c11Leaf{"A0", []byte{0x68}}, &c11List{kind: "store", kids: []c11Node{call("MTH1", i1(1))}, ints: []uint64{0}}}},
+				&c11List{kind: "ret", kids: []c11Node{c11Leaf{"A1", []byte{0x69}}}})), three("NE0"),
+			one(method(N(false, 0, "MTH1"), 1)), three("NF0"),
+			one(name(N(false, 0, "BUF0"), c11Buf{1, 4, []byte{1, 2, 3}})), three("NG0"),
+			one(leafL("mutex", N(false, 0, "MTX0"), 3)), three("NH0"), one(leafL("event", N(false, 0, "EVT0"))), three("NI0"),
+			one(func() c11Node { l := leafL("proc", N(false, 0, "CPU0"), 1, 0x410, 6); l.kids = three("PN0"); l.w = c11Width(nil, len(l.body())); return l }()), three("NJ0"),
+			one(func() c11Node { l := leafL("power", N(false, 0, "PWR0"), 2, 7); l.kids = three("QN0"); l.w = c11Width(nil, len(l.body())); return l }()), three("NK0"),
+			one(cont("thermal", N(false, 0, "THM0"), three("TN0")...)), three("NL0"),
+			one(cont("device", N(false, 0, "DEV0"), cat(one(region("REG1", 1, c11Int{1, 0x80}, c11Int{1, 8})),
+				one(flist("field", N(false, 0, "REG1"), noName, c11Int{}, 1, "DFL0:8", "DFL1:8")),
+				one(flist("bfield", N(false, 0, "REG1"), N(false, 0, "DFL0"), c11Int{0, 1}, 1, "DBF0:8")), three("DN0"))...)), three("NM0")),
+			[]c11Node{method(N(false, 0, "MTH2"), 0, call("MTH3", call("MTH1", i1(5)), i1(6)), &c11List{kind: "store", kids: []c11Node{call("MTH0", i1(1), i1(2))}, ints: []uint64{1}}),
+				method(N(false, 0, "MTH3"), 2), name(N(false, 0, "LAT0"), i1(9)),
+				cont("scope", N(true, 0, "DEV0"), method(N(false, 0, "MTH4"), 0, call("MTH5"), call("MTH2")), method(N(false, 0, "MTH5"), 0))},
+			[]c11Node{cont("scope", N(true, 0, "_SB_"), method(N(false, 0, "MTH6"), 1, call("MTH7", c11Leaf{"A0", []byte{0x68}})), method(N(false, 0, "MTH7"), 1, call("MTH2"))),
+				name(N(false, 0, "LAT1"), c11Buf{1, 2, []byte{9}})}),
 		c11Hand("b-later-table", "call,later-table-scope", []c11Node{cont("scope", N(false, 0, "_SB_"), cont("device", N(false, 0, "DEV0"), method(N(false, 0, "M000"), 1)))},
 			[]c11Node{cont("scope", N(true, 0, "_SB_", "DEV0"), name(N(false, 0, "N000"), i1(1)), method(N(false, 0, "M001"), 0, call("M000", i1(9))))}),
 	)
